@@ -97,6 +97,10 @@ def handle (kind : String) (args : List String) (impl : String) : String :=
     let r := C18.handle "c18.step" ["3", v, "30"] impl
     let sp := specBad impl
     if sp != "" then s!"SPEC {sp} impl={impl}" else r
+  | "c11.null", [_, _, _] =>
+    -- a null bulk string is not an argument: the request is answered with an error by the proxy and nothing reaches a node
+    -- (a node closes the connection on "$-1" in a request — the connection every client shares)
+    if impl == "rejected sent=0" then "ok" else s!"SPEC malformed-request-forwarded-to-a-backend impl={impl}"
   | "c11.cycle", [] =>
     -- the proxy keeps serving other connections (and can be stopped), whatever a backend's redirections say
     if impl == "other=served stop=ok" then "ok" else s!"SPEC other-connections-not-served-after-a-redirection-cycle impl={impl}"
